@@ -37,6 +37,45 @@ def pytype_frame(tb_list, repo):
   return inner or "<none>"
 
 
+def install_monitor():
+  """Records, for the file under analysis, the range of opcode lines of its compiled code ("ops": [count, min, max])
+  and of the director's function-range ends ("fr": [count, min, max]): the monitored hypotheses of the C15 theorem
+  logged_line_in_file.  Observes only; the wrapped functions' results are passed on unchanged."""
+  from pytype import vm as vm_mod
+  from pytype.directors import directors
+  mon = {}
+  orig_compile = vm_mod.VirtualMachine.compile_src
+
+  def compile_src(self, src, filename=None, mode="exec", store_blockgraph=False):
+    code = orig_compile(self, src, filename=filename, mode=mode, store_blockgraph=store_blockgraph)
+    if store_blockgraph:          # the file itself (run_program), not an annotation string evaluated later
+      n, lo, hi, zero = 0, None, None, set()
+      todo = [code]
+      while todo:
+        c = todo.pop()
+        for block in c.order:
+          for op in block:
+            l = op.line or 0
+            n += 1
+            if l == 0:
+              zero.add(op.name)       # CPython gives the prologue opcodes (RESUME, ...) line 0
+              continue
+            lo = l if lo is None else min(lo, l)
+            hi = l if hi is None else max(hi, l)
+        todo.extend(k for k in c.consts if hasattr(k, "order"))
+      mon["ops"] = [n, lo, hi, sorted(zero)]
+    return code
+  vm_mod.VirtualMachine.compile_src = compile_src
+  orig_init = directors.Director.__init__
+
+  def init(self, *a, **k):
+    orig_init(self, *a, **k)
+    ends = list(self._function_ranges._start_to_end.values())  # pylint: disable=protected-access
+    mon["fr"] = [len(ends), min(ends), max(ends)] if ends else [0, None, None]
+  directors.Director.__init__ = init
+  return mon
+
+
 def main():
   workdir = sys.argv[1]
   os.makedirs(workdir, exist_ok=True)
@@ -47,6 +86,7 @@ def main():
   # everything pytype logs goes nowhere; stdout is the result channel
   import logging
   logging.disable(logging.CRITICAL)
+  mon = install_monitor()
   out = sys.stdout
   sys.stdout = open(os.devnull, "w")
   out.write(json.dumps({"ready": True}) + "\n")
@@ -56,6 +96,7 @@ def main():
     job = json.loads(line)
     src = job["src"]
     res = {"id": job["id"]}
+    mon.clear()
     t0 = time.time()
     try:
       with open(path, "w", encoding="utf8", newline="") as f:
@@ -106,6 +147,7 @@ def main():
       if isinstance(e, KeyboardInterrupt):
         raise
       res.update(status="harness-error", exc=type(e).__name__, msg=str(e)[:300])
+    res.update(mon)
     res["t"] = round(time.time() - t0, 3)
     out.write(json.dumps(res) + "\n")
     out.flush()
